@@ -1,5 +1,7 @@
 """C07 - cancellation is never swallowed by scopes; the cancellation check reports it."""
-from harness.legs import cfg_text, leg_m, leg_mutant, leg_r
+import random
+
+from harness.legs import cfg_text, leg_m, leg_mutant, leg_r, leg_t_gen
 from props.scopelife_common import ScopeLifeDriver
 from props.scopetasks_common import ScopeTasksDriver
 from props.scopetasks_common import replay as _replay_tasks
@@ -52,6 +54,12 @@ def run(rep, work, tier, seed):
     life_invs = ["TypeOK", "CancelNotLost", "CancelAbortsMembers", "NoWaitAfterFailure", "Restored"]
     leg_m(rep, work, "ScopeLife", f"life_mc_{tier}", cfg_text(life, invariants=life_invs), expect_actions=["Cancel"])
     leg_r(rep, work, "ScopeLife", f"life_conf_{tier}", cfg_text(life, invariants=life_invs), ScopeLifeDriver)
+    # leg T: random programs of 5 tasks (~30 operations) recorded from the real library, validated by a trace module
+    # generated from ScopeTasks.tla (existential acceptance: the spec is nondeterministic where the stdlib is)
+    from props.scopetasks_common import TRACE_KW, gen_trace
+    rnd = random.Random(seed * 29 + 1)
+    traces = [gen_trace(rnd) for _ in range(150 if tier == "quick" else 2000)]
+    leg_t_gen(rep, work, SPEC, f"trace_{tier}", traces, **TRACE_KW)
     rep.assumptions += [
         "user code does not catch the cancellation (the property's own proviso); tasks obey cancellation at once",
         "an external task.cancel() on a task parked at a gate is delivered at once, so ctx.check_cancellation() can only "
